@@ -274,6 +274,28 @@ func quotedQualifierParser(prefix string) pars.Parser {
 			state.Pop()
 			return err
 		}
+		// Every further line of the value carries the indent of the table.
+		// A line that does not is not part of the value: the double quote
+		// that should have closed it is missing, and what was taken for it
+		// belongs to something else - a later feature, field or record.
+		for rest := result.Token; ; {
+			i := bytes.IndexByte(rest, '\n')
+			if i < 0 {
+				break
+			}
+			rest = rest[i+1:]
+			if !bytes.HasPrefix(rest, p[1:]) {
+				line := rest
+				if j := bytes.IndexByte(line, '\n'); j >= 0 {
+					line = line[:j]
+				}
+				if len(bytes.TrimSpace(line)) != 0 {
+					err := pars.NewError("expected closing `\"`", state.Position())
+					state.Pop()
+					return err
+				}
+			}
+		}
 		state.Drop()
 		pars.EOL(state, pars.Void)
 		// Take the indent off every continuation line, once: a line of the
